@@ -26,15 +26,19 @@ RULE = (
     "per view family a graph over (response header list, retained view representation, model): every op of the "
     "family's alphabet (attribute set/del for every typed directive with True/False/None/0/5/'x', item assignment, "
     "add/remove/discard/clear/update/setitem/delitem with letter-case variants, token/type/parameter edits, "
-    "set/unset, whole-property assignment of object/string/list/None, direct header edit, re-obtain the view) from "
+    "set/unset, whole-property assignment of object/string/list/None, direct header edit, re-obtain the view; views "
+    "stay retained across assignments and direct edits, so stale-view mutations are part of the graph) from "
     "every reachable state, closed under the unit's alphabet (cache-control: every unordered pair of the 13 "
     "directives) or to the stated depth; scalar properties: every op sequence up to the depth over "
     "assign/delete/direct-edit. non-trivial = distinct (family, state, op) that changed header or view."
 )
 ASSUMPTIONS = [
     "header text is judged by harness-side parsers against a harness-side model, never by view.to_header() alone",
-    "a view is only required to be live until the header is edited directly or the property is reassigned; the "
-    "harness drops the retained view at that point and re-reads the property",
+    "a retained view is kept across edits through another door (property assignment, direct header edit); what is "
+    "demanded after a later mutation of that view is: the header is rewritten from the view's own contents, merged "
+    "with the part of the header the view does not stand for (mimetype_params: the media type the header had just "
+    "before the view op must survive). A call that leaves the view's contents unchanged may or may not rewrite a "
+    "header that differs from the view",
     "ill-typed values (bool directive = 'x'/5, int directive = True/'x') may raise ValueError/TypeError leaving "
     "everything unchanged, or be coerced; only coherence is demanded for them",
     "WWWAuthenticate with neither token nor parameters, or with both, is outside the model (serialisation does not "
